@@ -4,4 +4,7 @@ PROOFS = [
        functions=["qmail-smtpd.c:put"],
        canaries=[dict(name="limit-off-by-one", file="qmail-smtpd.c", literal=True, pattern="  if (bytestooverflow)\n    if (!--bytestooverflow)\n      qmail_fail(&qqt);", repl="  if (bytestooverflow > 1)\n    if (!--bytestooverflow)\n      qmail_fail(&qqt);", expect=r"C07"),
                  dict(name="fail-not-called", file="qmail-smtpd.c", literal=True, pattern="    if (!--bytestooverflow)\n      qmail_fail(&qqt);\n  qmail_put(&qqt,ch,1);", repl="    --bytestooverflow;\n  qmail_put(&qqt,ch,1);", expect=r"C07: the submission is failed exactly")]),
+  dict(name="smtpd_bmfcheck", properties=["C08"], entry="h_bmf", defines=["P_BMF"], units=["harness.c"], mode="plain", unwind=2, timeout=120, min_tagged=4,
+       title="qmail-smtpd.c bmfcheck(): bad sender iff the whole address or its @domain is listed", functions=["qmail-smtpd.c:bmfcheck"],
+       canaries=[dict(name="domain-entry-not-consulted", file="qmail-smtpd.c", literal=True, pattern="    if (constmap(&mapbmf,addr.s + j,addr.len - j - 1)) return 1;", repl="    ;", expect=r"C08")]),
 ]
